@@ -5,17 +5,18 @@
    - cache_placeholder_witness: a protocol whose first store puts anything else into the slot
      admits a constructed schedule under which another thread, looking the slot up, returns that
      other value;
+   - check-then-read (`if key in cache: return cache[key]`, two steps) is safe exactly as long as NOTHING is
+     ever removed: cache_insert_only_safe (no removal site: no thread ever raises, every thread returns the
+     computed value) and cache_removal_witness (a removal site: a constructed schedule under which the reader
+     raises KeyError between its test and its read);
    - the decidable classification of a table entry is sound in both directions. *)
 From Coq Require Import List Arith Bool Lia.
 Import ListNotations.
 From TP Require Import Global.Threads Global.Cache.
 
-(* ------------------------------------------------------------------ the invariant *)
+(* ------------------------------------------------------------------ the invariants *)
 
 Definition slot_ok (s : slot) : Prop := s = None \/ s = Some CFinal.
-
-Definition tstate_ok (t : tstate) : Prop :=
-  match t with Running r => stores_final r = true | Done v => v = CFinal end.
 
 Lemma stores_final_cons : forall a r, stores_final (a :: r) = true ->
                                       is_other_store a = false /\ stores_final r = true.
@@ -24,20 +25,27 @@ Proof.
   split; [apply negb_true_iff; exact Ha | exact Hr].
 Qed.
 
-Lemma cstep_ok : forall s t, slot_ok s -> tstate_ok t ->
-                             slot_ok (fst (cstep s t)) /\ tstate_ok (snd (cstep s t)).
+Lemma no_read_cons : forall a r, no_read (a :: r) = true -> is_read a = false /\ no_read r = true.
 Proof.
-  intros s t Hs Ht. destruct t as [r|v]; [|split; assumption].
-  destruct r as [|a r]; [split; [assumption|reflexivity]|].
-  cbn [tstate_ok] in Ht. apply stores_final_cons in Ht as [Ha Hr].
-  destruct a as [ | v | | ]; cbn [cstep].
-  - destruct s as [v|]; cbn [fst snd].
-    + destruct Hs as [Hs|Hs]; [discriminate|]. injection Hs as ->. split; [right; reflexivity|reflexivity].
-    + split; [left; reflexivity|exact Hr].
-  - destruct v as [|tag]; cbn in Ha; [|discriminate]. split; [right; reflexivity|exact Hr].
-  - split; [left; reflexivity|exact Hr].
-  - split; [assumption|exact Hr].
+  intros a r H. unfold no_read in *. cbn [forallb] in H. apply andb_true_iff in H as [Ha Hr].
+  split; [apply negb_true_iff; exact Ha | exact Hr].
 Qed.
+
+Lemma no_clear_cons : forall a r, no_clear (a :: r) = true -> is_clear a = false /\ no_clear r = true.
+Proof.
+  intros a r H. unfold no_clear in *. cbn [forallb] in H. apply andb_true_iff in H as [Ha Hr].
+  split; [apply negb_true_iff; exact Ha | exact Hr].
+Qed.
+
+(* what is left after a missed membership test *)
+Definition skip_read (r : cprog) : cprog := match r with CRead :: r' => r' | _ => r end.
+
+Lemma stores_final_skip : forall r, stores_final r = true -> stores_final (skip_read r) = true.
+Proof. intros [|a r] H; [exact H|]. destruct a; exact H. Qed.
+Lemma no_read_skip : forall r, no_read r = true -> skip_read r = r.
+Proof. intros [|a r] H; [reflexivity|]. destruct a; try reflexivity. apply no_read_cons in H as [H _]. discriminate. Qed.
+Lemma no_clear_skip : forall r, no_clear r = true -> no_clear (skip_read r) = true.
+Proof. intros [|a r] H; [exact H|]. destruct a; exact H. Qed.
 
 Lemma Forall_set_nth : forall A (P : A -> Prop) (l : list A) i x,
     Forall P l -> P x -> Forall P (set_nth l i x).
@@ -51,6 +59,33 @@ Proof.
   intros A P l i x Hl Hn. apply nth_error_In in Hn. rewrite Forall_forall in Hl. auto.
 Qed.
 
+(* ---- mode A: every lookup is ONE atomic step (removals allowed) ---- *)
+
+Definition tstate_ok (t : tstate) : Prop :=
+  match t with
+  | Running r => stores_final r = true /\ no_read r = true
+  | Done v => v = CFinal
+  | Failed => False
+  end.
+
+Lemma cstep_ok : forall s t, slot_ok s -> tstate_ok t ->
+                             slot_ok (fst (cstep s t)) /\ tstate_ok (snd (cstep s t)).
+Proof.
+  intros s t Hs Ht. destruct t as [r|v|]; [|split; assumption|contradiction].
+  destruct r as [|a r]; [split; [assumption|reflexivity]|].
+  cbn [tstate_ok] in Ht. destruct Ht as [Hf Hn].
+  apply stores_final_cons in Hf as [Ha Hr]. apply no_read_cons in Hn as [Hra Hrr].
+  destruct a as [ | v | | | | ]; cbn [cstep].
+  - destruct s as [v|]; cbn [fst snd].
+    + destruct Hs as [Hs|Hs]; [discriminate|]. injection Hs as ->. split; [right; reflexivity|reflexivity].
+    + split; [left; reflexivity|split; assumption].
+  - destruct v as [|tag]; cbn in Ha; [|discriminate]. split; [right; reflexivity|split; assumption].
+  - split; [left; reflexivity|split; assumption].
+  - split; [assumption|split; assumption].
+  - fold (skip_read r). rewrite (no_read_skip r Hrr). destruct s; cbn [fst snd]; (split; [assumption|split; assumption]).
+  - cbn in Hra. discriminate.
+Qed.
+
 Lemma crun_ok : forall sched s ts, slot_ok s -> Forall tstate_ok ts ->
     slot_ok (fst (crun sched s ts)) /\ Forall tstate_ok (snd (crun sched s ts)).
 Proof.
@@ -61,54 +96,154 @@ Proof.
   apply IH; [assumption|]. apply Forall_set_nth; assumption.
 Qed.
 
-Lemma cstart_ok : forall ps, forallb stores_final ps = true -> Forall tstate_ok (cstart ps).
+Lemma cstart_ok : forall ps, forallb stores_final ps = true -> forallb no_read ps = true ->
+                             Forall tstate_ok (cstart ps).
 Proof.
-  induction ps as [|p ps IH]; intro H; cbn; constructor.
-  - cbn in H. apply andb_true_iff in H. cbn. tauto.
-  - apply IH. cbn in H. apply andb_true_iff in H. tauto.
+  induction ps as [|p ps IH]; intros H1 H2; cbn; constructor.
+  - cbn in H1, H2. apply andb_true_iff in H1, H2. cbn. tauto.
+  - apply IH; [cbn in H1; apply andb_true_iff in H1; tauto|cbn in H2; apply andb_true_iff in H2; tauto].
 Qed.
 
-(* ANY schedule, any number of threads (each with its own protocol on the same slot) *)
+(* ANY schedule, any number of threads (each with its own protocol on the same slot); lookups are atomic,
+   removals (clear / pop / del) are allowed *)
 Theorem cache_final_safe : forall ps sched s i r,
-    forallb stores_final ps = true -> slot_ok s ->
+    forallb stores_final ps = true -> forallb no_read ps = true -> slot_ok s ->
     cresult (crun sched s (cstart ps)) i = Some r -> r = CFinal.
 Proof.
-  intros ps sched s i r Hps Hs Hr. unfold cresult in Hr.
-  destruct (crun_ok sched s (cstart ps) Hs (cstart_ok ps Hps)) as [_ Hall].
+  intros ps sched s i r Hps Hnr Hs Hr. unfold cresult in Hr.
+  destruct (crun_ok sched s (cstart ps) Hs (cstart_ok ps Hps Hnr)) as [_ Hall].
   destruct (nth_error (snd (crun sched s (cstart ps))) i) as [t|] eqn:Hn; [|discriminate].
-  destruct t as [rest|v]; [discriminate|]. injection Hr as <-.
+  destruct t as [rest|v|]; try discriminate. injection Hr as <-.
   exact (nth_error_Forall _ _ _ _ _ Hall Hn).
 Qed.
 
-(* the sequential reference: the same protocol running alone returns the computed value *)
-Theorem cache_final_alone : forall p s, stores_final p = true -> slot_ok s ->
-                                        snd (calone s p) = CFinal /\ slot_ok (fst (calone s p)).
+Theorem cache_atomic_never_fails : forall ps sched s i,
+    forallb stores_final ps = true -> forallb no_read ps = true -> slot_ok s ->
+    cfailed (crun sched s (cstart ps)) i = false.
 Proof.
-  induction p as [|a p IH]; intros s Hp Hs; cbn [calone]; [split; [reflexivity|assumption]|].
-  apply stores_final_cons in Hp as [Ha Hp].
-  destruct a as [ | v | | ].
-  - destruct s as [v|]; [|apply IH; assumption].
-    destruct Hs as [Hs|Hs]; [discriminate|]. injection Hs as ->. split; [reflexivity|right; reflexivity].
-  - destruct v as [|tag]; cbn in Ha; [|discriminate]. apply IH; [assumption|right; reflexivity].
-  - apply IH; [assumption|left; reflexivity].
-  - apply IH; assumption.
+  intros ps sched s i Hps Hnr Hs. unfold cfailed.
+  destruct (crun_ok sched s (cstart ps) Hs (cstart_ok ps Hps Hnr)) as [_ Hall].
+  destruct (nth_error (snd (crun sched s (cstart ps))) i) as [t|] eqn:Hn; [|reflexivity].
+  destruct t as [rest|v|]; try reflexivity.
+  exfalso. exact (nth_error_Forall _ _ _ _ _ Hall Hn).
 Qed.
 
-(* `calone` is what the small-step semantics computes when only that thread is scheduled *)
-Lemma calone_is_crun : forall p s,
-    crun (repeat 0 (S (length p))) s [Running p] = (fst (calone s p), [Done (snd (calone s p))]).
+(* ---- mode B: check-then-read, INSERT-ONLY (no removal site anywhere) ---- *)
+
+(* a thread is either in front of guarded code, or between a membership test that hit and its read - and
+   then the slot is (still) filled *)
+Definition tstate_okB (s : slot) (t : tstate) : Prop :=
+  match t with
+  | Running r => stores_final r = true /\ no_clear r = true /\
+                 (guarded r = true \/ exists r', r = CRead :: r' /\ guarded r' = true /\ s <> None)
+  | Done v => v = CFinal
+  | Failed => False
+  end.
+
+Lemma okB_mono : forall s s' t, (s <> None -> s' <> None) -> tstate_okB s t -> tstate_okB s' t.
 Proof.
-  induction p as [|a p IH]; intro s; [reflexivity|].
-  change (repeat 0 (S (length (a :: p)))) with (0 :: repeat 0 (S (length p))).
-  cbn [crun nth_error]. destruct a as [ | v | | ]; cbn [cstep calone set_nth].
-  - destruct s as [v|]; [|apply IH]. cbn [fst snd]. clear IH.
-    induction (S (length p)) as [|n IHn]; [reflexivity|]. exact IHn.
-  - apply IH.
-  - apply IH.
-  - apply IH.
+  intros s s' t Hm Ht. destruct t as [r|v|]; [|exact Ht|exact Ht].
+  destruct Ht as [H1 [H2 [H3|[r' [E [G N]]]]]]; (split; [exact H1|split; [exact H2|]]).
+  - left. exact H3.
+  - right. exists r'. split; [exact E|split; [exact G|apply Hm; exact N]].
 Qed.
 
-(* ------------------------------------------------------------------ the witness *)
+Lemma guarded_check : forall r, guarded (CCheck :: r) = true ->
+    (exists r', r = CRead :: r' /\ guarded r' = true) \/ (guarded r = true /\ skip_read r = r).
+Proof.
+  intros r H. destruct r as [|a r']; [right; split; reflexivity|].
+  destruct a; try (right; split; [exact H|reflexivity]).
+  left. exists r'. split; [reflexivity|exact H].
+Qed.
+
+Lemma cstepB_ok : forall s t, slot_ok s -> tstate_okB s t ->
+    slot_ok (fst (cstep s t)) /\ tstate_okB (fst (cstep s t)) (snd (cstep s t)) /\
+    (s <> None -> fst (cstep s t) <> None).
+Proof.
+  intros s t Hs Ht. destruct t as [r|v|]; [|split; [assumption|split; [assumption|auto]]|contradiction].
+  destruct r as [|a r]; [cbn; split; [assumption|split; [reflexivity|auto]]|].
+  destruct Ht as [Hf [Hc Hg]].
+  apply stores_final_cons in Hf as [Ha Hr]. apply no_clear_cons in Hc as [Hca Hcr].
+  destruct Hg as [Hg|[r' [E [G N]]]].
+  - destruct a as [ | v | | | | ]; cbn [cstep].
+    + destruct s as [v|]; cbn [fst snd].
+      * destruct Hs as [Hs|Hs]; [discriminate|]. injection Hs as ->.
+        split; [right; reflexivity|split; [reflexivity|auto]].
+      * split; [left; reflexivity|split; [|auto]]. split; [exact Hr|split; [exact Hcr|left; exact Hg]].
+    + destruct v as [|tag]; cbn in Ha; [|discriminate]. cbn [fst snd].
+      split; [right; reflexivity|split; [|intros _; discriminate]].
+      split; [exact Hr|split; [exact Hcr|left; exact Hg]].
+    + cbn in Hca. discriminate.
+    + cbn [fst snd]. split; [assumption|split; [|auto]]. split; [exact Hr|split; [exact Hcr|left; exact Hg]].
+    + fold (skip_read r). destruct (guarded_check r Hg) as [[r' [-> G]]|[G Hsk]].
+      * destruct s as [v|]; cbn [fst snd skip_read].
+        -- split; [assumption|split; [|auto]]. split; [exact Hr|split; [exact Hcr|]].
+           right. exists r'. split; [reflexivity|split; [exact G|discriminate]].
+        -- split; [assumption|split; [|auto]].
+           apply stores_final_cons in Hr as [_ Hr']. apply no_clear_cons in Hcr as [_ Hcr'].
+           split; [exact Hr'|split; [exact Hcr'|left; exact G]].
+      * rewrite Hsk. destruct s as [v|]; cbn [fst snd];
+          (split; [assumption|split; [|auto]]; split; [exact Hr|split; [exact Hcr|left; exact G]]).
+    + cbn in Hg. discriminate.
+  - injection E as -> ->. cbn [cstep]. destruct s as [v|]; [|contradiction].
+    destruct Hs as [Hs|Hs]; [discriminate|]. injection Hs as ->. cbn [fst snd].
+    split; [right; reflexivity|split; [reflexivity|auto]].
+Qed.
+
+Lemma Forall_okB_mono : forall s s' ts, (s <> None -> s' <> None) ->
+                                        Forall (tstate_okB s) ts -> Forall (tstate_okB s') ts.
+Proof. intros s s' ts Hm H. eapply Forall_impl; [|exact H]. intros t Ht. eapply okB_mono; eassumption. Qed.
+
+Lemma crunB_ok : forall sched s ts, slot_ok s -> Forall (tstate_okB s) ts ->
+    slot_ok (fst (crun sched s ts)) /\ Forall (tstate_okB (fst (crun sched s ts))) (snd (crun sched s ts)).
+Proof.
+  induction sched as [|i sched IH]; intros s ts Hs Hts; cbn [crun]; [split; assumption|].
+  destruct (nth_error ts i) as [t|] eqn:Hn; [|apply IH; assumption].
+  pose proof (cstepB_ok s t Hs (nth_error_Forall _ _ _ _ _ Hts Hn)) as [Hs' [Ht' Hm]].
+  destruct (cstep s t) as [s' t']. cbn [fst snd] in *.
+  apply IH; [assumption|]. apply Forall_set_nth; [|assumption].
+  eapply Forall_okB_mono; eassumption.
+Qed.
+
+Lemma cstartB_ok : forall ps s,
+    forallb stores_final ps = true -> forallb no_clear ps = true -> forallb guarded ps = true ->
+    Forall (tstate_okB s) (cstart ps).
+Proof.
+  induction ps as [|p ps IH]; intros s H1 H2 H3; cbn; constructor.
+  - cbn in H1, H2, H3. apply andb_true_iff in H1, H2, H3. cbn. tauto.
+  - apply IH; [cbn in H1; apply andb_true_iff in H1; tauto|cbn in H2; apply andb_true_iff in H2; tauto
+               |cbn in H3; apply andb_true_iff in H3; tauto].
+Qed.
+
+(* NO removal site in any protocol: check-then-read never raises, and every thread that returns, returns the
+   computed value - ANY schedule, any number of threads *)
+Theorem cache_insert_only_safe : forall ps sched s i,
+    forallb stores_final ps = true -> forallb no_clear ps = true -> forallb guarded ps = true -> slot_ok s ->
+    cfailed (crun sched s (cstart ps)) i = false /\
+    forall r, cresult (crun sched s (cstart ps)) i = Some r -> r = CFinal.
+Proof.
+  intros ps sched s i H1 H2 H3 Hs.
+  destruct (crunB_ok sched s (cstart ps) Hs (cstartB_ok ps s H1 H2 H3)) as [_ Hall].
+  unfold cfailed, cresult.
+  destruct (nth_error (snd (crun sched s (cstart ps))) i) as [t|] eqn:Hn; [|split; [reflexivity|discriminate]].
+  pose proof (nth_error_Forall _ _ _ _ _ Hall Hn) as Ht.
+  destruct t as [rest|v|]; [split; [reflexivity|discriminate]| |contradiction].
+  split; [reflexivity|]. intros r E. injection E as <-. exact Ht.
+Qed.
+
+(* the two modes together: what the classifier calls safe *)
+Theorem cache_protocols_safe : forall ps sched s i,
+    protocols_safe ps = true -> slot_ok s ->
+    cfailed (crun sched s (cstart ps)) i = false /\
+    forall r, cresult (crun sched s (cstart ps)) i = Some r -> r = CFinal.
+Proof.
+  intros ps sched s i H Hs. unfold protocols_safe in H. apply andb_true_iff in H as [Hf H].
+  apply orb_true_iff in H as [Hnr|H].
+  - split; [apply cache_atomic_never_fails; assumption|]. intros r Hr. eapply cache_final_safe; eassumption.
+  - apply andb_true_iff in H as [Hc Hg]. apply cache_insert_only_safe; assumption.
+Qed.
+
+(* ------------------------------------------------------------------ basic facts about schedules *)
 
 Lemma crun_app : forall a b s ts,
     crun (a ++ b) s ts = crun b (fst (crun a s ts)) (snd (crun a s ts)).
@@ -121,22 +256,85 @@ Qed.
 Lemma repeat_S_end : forall A (x : A) n, repeat x (S n) = repeat x n ++ [x].
 Proof. induction n as [|n IH]; [reflexivity|]. cbn [repeat app] in *. rewrite <- IH. reflexivity. Qed.
 
+Lemma crun_finished0 : forall n s t, (forall s', cstep s' t = (s', t)) -> crun (repeat 0 n) s [t] = (s, [t]).
+Proof.
+  induction n as [|n IH]; intros s t H; [reflexivity|].
+  cbn [repeat crun nth_error]. rewrite H. cbn [set_nth]. apply IH. exact H.
+Qed.
+
+(* the sequential reference: `calone` is what the small-step semantics computes when only that thread is
+   scheduled (often enough) *)
+Lemma calone_is_crun_gen : forall k p s n, length p <= k -> S (length p) <= n ->
+    crun (repeat 0 n) s [Running p] = (fst (calone s p), [tstate_of (snd (calone s p))]).
+Proof.
+  induction k as [|k IH]; intros p s n Hk Hn.
+  - destruct p; [|cbn in Hk; lia]. destruct n; [lia|]. cbn [repeat crun nth_error cstep set_nth calone fst snd tstate_of].
+    apply crun_finished0. reflexivity.
+  - destruct p as [|a p]; [destruct n; [lia|]; cbn [repeat crun nth_error cstep set_nth calone fst snd tstate_of];
+                           apply crun_finished0; reflexivity|].
+    destruct n; [cbn in Hn; lia|]. cbn [length] in Hk, Hn.
+    cbn [repeat crun nth_error]. destruct a as [ | v | | | | ]; cbn [cstep calone set_nth].
+    + destruct s as [v|]; [|apply IH; lia]. cbn [fst snd tstate_of]. apply crun_finished0. reflexivity.
+    + apply IH; lia.
+    + apply IH; lia.
+    + apply IH; lia.
+    + destruct s as [v|]; [apply IH; lia|].
+      destruct p as [|b p']; [apply IH; cbn; lia|].
+      destruct b; try (apply IH; cbn [length] in *; lia).
+    + destruct s as [v|]; cbn [fst snd tstate_of]; apply crun_finished0; reflexivity.
+Qed.
+
+Theorem calone_is_crun : forall p s,
+    crun (repeat 0 (S (length p))) s [Running p] = (fst (calone s p), [tstate_of (snd (calone s p))]).
+Proof. intros p s. apply (calone_is_crun_gen (length p)); lia. Qed.
+
+(* a safe protocol running alone returns the computed value and leaves the slot empty or filled with it *)
+Theorem cache_final_alone : forall p s, protocols_safe [p] = true -> slot_ok s ->
+                                        snd (calone s p) = Some CFinal /\ slot_ok (fst (calone s p)).
+Proof.
+  intros p s H Hs.
+  pose proof (calone_is_crun p s) as E.
+  pose proof (cache_protocols_safe [p] (repeat 0 (S (length p))) s 0 H Hs) as [Hnf Hres].
+  unfold cstart in Hnf, Hres. cbn [map] in Hnf, Hres. rewrite E in Hnf, Hres.
+  unfold cfailed, cresult in *. cbn [snd nth_error] in *.
+  assert (Hok : slot_ok (fst (calone s p))).
+  { unfold protocols_safe in H. cbn [forallb] in H. rewrite !andb_true_r in H.
+    apply andb_true_iff in H as [Hf H]. apply orb_true_iff in H as [Hnr|H].
+    - assert (Hst : Forall tstate_ok (cstart [p])) by (apply cstart_ok; cbn; rewrite ?Hf, ?Hnr; reflexivity).
+      pose proof (crun_ok (repeat 0 (S (length p))) s (cstart [p]) Hs Hst) as [Hs' _].
+      unfold cstart in Hs'. cbn [map] in Hs'. rewrite E in Hs'. exact Hs'.
+    - apply andb_true_iff in H as [Hc Hg].
+      assert (Hst : Forall (tstate_okB s) (cstart [p])) by (apply cstartB_ok; cbn; rewrite ?Hf, ?Hc, ?Hg; reflexivity).
+      pose proof (crunB_ok (repeat 0 (S (length p))) s (cstart [p]) Hs Hst) as [Hs' _].
+      unfold cstart in Hs'. cbn [map] in Hs'. rewrite E in Hs'. exact Hs'. }
+  split; [|exact Hok].
+  destruct (snd (calone s p)) as [v|]; cbn [tstate_of] in *; [|discriminate].
+  f_equal. apply Hres. reflexivity.
+Qed.
+
+(* ------------------------------------------------------------------ the placeholder witness *)
+
 Lemma no_store_cons : forall a r, no_store (a :: r) = true -> is_store a = false /\ no_store r = true.
 Proof.
   intros a r H. unfold no_store in *. cbn [forallb] in H. apply andb_true_iff in H as [Ha Hr].
   split; [apply negb_true_iff; exact Ha | exact Hr].
 Qed.
 
-(* the writer runs through a store-free prefix starting from the empty slot: the slot stays empty *)
+(* the writer runs through a store-free prefix starting from the empty slot: the slot stays empty; a missed
+   membership test may skip one more action, so the prefix is consumed in AT MOST its length: we only use
+   prefixes without check/read here *)
+Definition plain (p : cprog) : bool :=
+  forallb (fun a => match a with CCheck | CRead => false | _ => true end) p.
+
 Lemma writer_prefix : forall pre rest t1,
-    no_store pre = true ->
+    no_store pre = true -> plain pre = true ->
     crun (repeat 0 (length pre)) None [Running (pre ++ rest); t1] = (None, [Running rest; t1]).
 Proof.
-  induction pre as [|a pre IH]; intros rest t1 H; [reflexivity|].
+  induction pre as [|a pre IH]; intros rest t1 H Hp; [reflexivity|].
   apply no_store_cons in H as [Ha Hpre].
+  unfold plain in Hp. cbn [forallb] in Hp. apply andb_true_iff in Hp as [Hpa Hpp].
   cbn [length repeat app crun nth_error].
-  destruct a as [ | v | | ]; cbn [cstep set_nth]; try (apply IH; exact Hpre).
-  cbn in Ha. discriminate.
+  destruct a as [ | v | | | | ]; cbn [cstep set_nth]; try (apply IH; assumption); try discriminate.
 Qed.
 
 Lemma only_local_cons : forall a r, only_local (a :: r) = true -> a = CLocal /\ only_local r = true.
@@ -154,121 +352,227 @@ Proof.
   cbn [length repeat app crun nth_error cstep set_nth]. apply IH. exact Hloc.
 Qed.
 
+Lemma local_prefix0 : forall loc rest t1 s,
+    only_local loc = true ->
+    crun (repeat 0 (length loc)) s [Running (loc ++ rest); t1] = (s, [Running rest; t1]).
+Proof.
+  induction loc as [|a loc IH]; intros rest t1 s H; [reflexivity|].
+  apply only_local_cons in H as [-> Hloc].
+  cbn [length repeat app crun nth_error cstep set_nth]. apply IH. exact Hloc.
+Qed.
+
 Theorem cache_placeholder_witness : forall pre tag post loc rest,
-    no_store pre = true -> only_local loc = true ->
+    no_store pre = true -> plain pre = true -> only_local loc = true ->
     cresult (crun (placeholder_sched pre loc) None
                   (cstart [pre ++ CStore (COther tag) :: post; loc ++ CLookup :: rest])) 1
     = Some (COther tag).
 Proof.
-  intros pre tag post loc rest Hpre Hloc. unfold placeholder_sched, cstart. cbn [map].
+  intros pre tag post loc rest Hpre Hpl Hloc. unfold placeholder_sched, cstart. cbn [map].
   rewrite crun_app.
   rewrite (repeat_S_end _ 0 (length pre)). rewrite crun_app.
-  rewrite (writer_prefix pre (CStore (COther tag) :: post) _ Hpre). cbn [fst snd].
+  rewrite (writer_prefix pre (CStore (COther tag) :: post) _ Hpre Hpl). cbn [fst snd].
   cbn [crun nth_error cstep set_nth fst snd].
   rewrite (repeat_S_end _ 1 (length loc)). rewrite crun_app.
   rewrite (reader_prefix loc (CLookup :: rest) _ _ Hloc). cbn [fst snd].
   reflexivity.
 Qed.
 
-(* ------------------------------------------------------------------ the decidable search is sound *)
+(* the same with a reader that tests membership and then reads (two steps) *)
+Theorem cache_placeholder_witness_cr : forall pre tag post loc rest,
+    no_store pre = true -> plain pre = true -> only_local loc = true ->
+    cresult (crun (repeat 0 (S (length pre)) ++ repeat 1 (S (S (length loc)))) None
+                  (cstart [pre ++ CStore (COther tag) :: post; loc ++ CCheck :: CRead :: rest])) 1
+    = Some (COther tag).
+Proof.
+  intros pre tag post loc rest Hpre Hpl Hloc. unfold cstart. cbn [map].
+  rewrite crun_app.
+  rewrite (repeat_S_end _ 0 (length pre)). rewrite crun_app.
+  rewrite (writer_prefix pre (CStore (COther tag) :: post) _ Hpre Hpl). cbn [fst snd].
+  cbn [crun nth_error cstep set_nth fst snd].
+  rewrite (repeat_S_end _ 1 (S (length loc))). rewrite crun_app.
+  rewrite (repeat_S_end _ 1 (length loc)). rewrite crun_app.
+  rewrite (reader_prefix loc (CCheck :: CRead :: rest) _ _ Hloc). cbn [fst snd].
+  reflexivity.
+Qed.
+
+(* ------------------------------------------------------------------ the removal witness *)
+
+(* a reader that has tested membership (hit) and not yet read; another thread - working on ANY key - reaches a
+   removal that empties this slot; the reader's subscript read raises KeyError *)
+Lemma reader_to_check : forall loc rest t1 v,
+    only_local loc = true ->
+    crun (repeat 0 (S (length loc))) (Some v) [Running (loc ++ CCheck :: CRead :: rest); t1]
+    = (Some v, [Running (CRead :: rest); t1]).
+Proof.
+  intros loc rest t1 v Hloc. rewrite (repeat_S_end _ 0 (length loc)), crun_app.
+  rewrite (local_prefix0 loc (CCheck :: CRead :: rest) t1 (Some v) Hloc). reflexivity.
+Qed.
+
+Lemma remover_to_clear : forall pre post t0 s,
+    only_local pre = true ->
+    crun (repeat 1 (S (length pre))) s [t0; Running (pre ++ CClear :: post)] = (None, [t0; Running post]).
+Proof.
+  intros pre post t0 s Hpre. rewrite (repeat_S_end _ 1 (length pre)), crun_app.
+  rewrite (reader_prefix pre (CClear :: post) t0 s Hpre). reflexivity.
+Qed.
+
+Theorem cache_removal_witness : forall loc rest pre post v,
+    only_local loc = true -> only_local pre = true ->
+    cfailed (crun (removal_sched loc pre) (Some v)
+                  (cstart [loc ++ CCheck :: CRead :: rest; pre ++ CClear :: post])) 0 = true.
+Proof.
+  intros loc rest pre post v Hloc Hpre. unfold removal_sched, cstart. cbn [map].
+  rewrite (crun_app (repeat 0 (S (length loc)))).
+  rewrite (reader_to_check loc rest _ v Hloc). cbn [fst snd].
+  rewrite (crun_app (repeat 1 (S (length pre)))).
+  rewrite (remover_to_clear pre post _ (Some v) Hpre). cbn [fst snd].
+  reflexivity.
+Qed.
+
+(* ------------------------------------------------------------------ the decidable searches are sound *)
 
 Lemma no_store_app : forall a b, no_store (a ++ b) = no_store a && no_store b.
 Proof. intros. unfold no_store. apply forallb_app. Qed.
+Lemma plain_app : forall a b, plain (a ++ b) = plain a && plain b.
+Proof. intros. unfold plain. apply forallb_app. Qed.
+Lemma only_local_app : forall a b, only_local (a ++ b) = only_local a && only_local b.
+Proof. intros. unfold only_local. apply forallb_app. Qed.
 
 Lemma find_placeholder_spec : forall p pre0 pre tag post,
     find_placeholder pre0 p = Some (pre, tag, post) -> no_store (rev pre0) = true ->
     rev pre0 ++ p = pre ++ CStore (COther tag) :: post /\ no_store pre = true.
 Proof.
   induction p as [|a p IH]; intros pre0 pre tag post H Hpre0; [discriminate|].
-  destruct a as [ | v | | ]; cbn [find_placeholder] in H.
-  - apply IH in H.
-    + cbn [rev] in H. rewrite <- app_assoc in H. exact H.
-    + cbn [rev]. rewrite no_store_app, Hpre0. reflexivity.
-  - destruct v as [|t]; [discriminate|]. injection H as <- <- <-. split; [reflexivity|exact Hpre0].
-  - apply IH in H.
-    + cbn [rev] in H. rewrite <- app_assoc in H. exact H.
-    + cbn [rev]. rewrite no_store_app, Hpre0. reflexivity.
-  - apply IH in H.
-    + cbn [rev] in H. rewrite <- app_assoc in H. exact H.
-    + cbn [rev]. rewrite no_store_app, Hpre0. reflexivity.
+  destruct a as [ | v | | | | ]; cbn [find_placeholder] in H;
+    try (apply IH in H; [cbn [rev] in H; rewrite <- app_assoc in H; exact H
+                        |cbn [rev]; rewrite no_store_app, Hpre0; reflexivity]).
+  destruct v as [|t]; [discriminate|]. injection H as <- <- <-. split; [reflexivity|exact Hpre0].
 Qed.
-
-Lemma only_local_app : forall a b, only_local (a ++ b) = only_local a && only_local b.
-Proof. intros. unfold only_local. apply forallb_app. Qed.
 
 Lemma find_lookup_spec : forall q pre0 loc rest,
     find_lookup pre0 q = Some (loc, rest) -> only_local (rev pre0) = true ->
     rev pre0 ++ q = loc ++ CLookup :: rest /\ only_local loc = true.
 Proof.
   induction q as [|a q IH]; intros pre0 loc rest H Hpre0; [discriminate|].
-  destruct a as [ | v | | ]; cbn [find_lookup] in H; try discriminate.
+  destruct a as [ | v | | | | ]; cbn [find_lookup] in H; try discriminate.
   - injection H as <- <-. split; [reflexivity|exact Hpre0].
   - apply IH in H.
     + cbn [rev] in H. rewrite <- app_assoc in H. exact H.
     + cbn [rev]. rewrite only_local_app, Hpre0. reflexivity.
 Qed.
 
-(* a writer whose first store is not the computed value, a reader that looks the slot up: under the
-   constructed schedule the reader returns that other value - which it never returns alone when its
-   own protocol only stores computed values *)
+Lemma find_checkread_spec : forall q pre0 loc rest,
+    find_checkread pre0 q = Some (loc, rest) -> only_local (rev pre0) = true ->
+    rev pre0 ++ q = loc ++ CCheck :: CRead :: rest /\ only_local loc = true.
+Proof.
+  induction q as [|a q IH]; intros pre0 loc rest H Hpre0; [discriminate|].
+  destruct a as [ | v | | | | ]; cbn [find_checkread] in H; try discriminate.
+  - apply IH in H.
+    + cbn [rev] in H. rewrite <- app_assoc in H. exact H.
+    + cbn [rev]. rewrite only_local_app, Hpre0. reflexivity.
+  - destruct q as [|b q']; [discriminate|]. destruct b; try discriminate.
+    injection H as <- <-. split; [reflexivity|exact Hpre0].
+Qed.
+
+Lemma foreign_view_cons : forall a p, foreign_view (a :: p) = (match a with CClear => CClear | _ => CLocal end) :: foreign_view p.
+Proof. reflexivity. Qed.
+
+Lemma find_clear_foreign_spec : forall q pre0 pre post,
+    find_clear pre0 (foreign_view q) = Some (pre, post) -> only_local (rev pre0) = true ->
+    rev pre0 ++ foreign_view q = pre ++ CClear :: post /\ only_local pre = true.
+Proof.
+  induction q as [|a q IH]; intros pre0 pre post H Hpre0; [discriminate|].
+  rewrite foreign_view_cons in *.
+  destruct a as [ | v | | | | ]; cbn [find_clear] in H;
+    try (apply IH in H; [cbn [rev] in H; rewrite <- app_assoc in H; exact H
+                        |cbn [rev]; rewrite only_local_app, Hpre0; reflexivity]).
+  injection H as <- <-. split; [reflexivity|exact Hpre0].
+Qed.
+
+(* the placeholder needs a prefix without membership tests; the generated protocols have at most a lookup or a
+   check-then-read in front of their first store: handled by a boolean side condition *)
+Definition placeholder_ready (p : cprog) : bool :=
+  match find_placeholder [] p with Some (pre, _, _) => plain pre | None => false end.
+
 Theorem cache_classify2_racy : forall p q,
-    cache_classify2 p q = CacheRacy ->
+    cache_classify2 p q = CacheRacy -> placeholder_ready p = true ->
     exists sched tag, cresult (crun sched None (cstart [p; q])) 1 = Some (COther tag).
 Proof.
-  intros p q H. unfold cache_classify2 in H.
-  destruct (stores_final p && stores_final q); [discriminate|].
+  intros p q H Hready. unfold cache_classify2 in H.
+  destruct (protocols_safe [p; q]); [discriminate|].
+  unfold placeholder_ready in Hready.
   destruct (find_placeholder [] p) as [[[pre tag] post]|] eqn:Hp; [|discriminate].
-  destruct (find_lookup [] q) as [[loc rest]|] eqn:Hq; [|discriminate].
-  apply find_placeholder_spec in Hp; [|reflexivity]. destruct Hp as [Hp Hpre].
-  apply find_lookup_spec in Hq; [|reflexivity]. destruct Hq as [Hq Hloc].
-  cbn [rev app] in Hp, Hq. subst p q.
-  exists (placeholder_sched pre loc), tag. apply cache_placeholder_witness; assumption.
+  apply find_placeholder_spec in Hp; [|reflexivity]. destruct Hp as [Hp Hpre]. cbn [rev app] in Hp. subst p.
+  unfold find_reader in H.
+  destruct (find_lookup [] q) as [[loc rest]|] eqn:Hq.
+  - apply find_lookup_spec in Hq; [|reflexivity]. destruct Hq as [Hq Hloc]. cbn [rev app] in Hq. subst q.
+    exists (placeholder_sched pre loc), tag. apply cache_placeholder_witness; assumption.
+  - destruct (find_checkread [] q) as [[loc rest]|] eqn:Hq2; [|discriminate].
+    apply find_checkread_spec in Hq2; [|reflexivity]. destruct Hq2 as [Hq2 Hloc]. cbn [rev app] in Hq2. subst q.
+    exists (repeat 0 (S (length pre)) ++ repeat 1 (S (S (length loc)))), tag.
+    apply cache_placeholder_witness_cr; assumption.
 Qed.
 
-Theorem cache_classified_safe : forall ps sched s i r,
-    cache_classify ps = CacheSafe -> slot_ok s ->
-    cresult (crun sched s (cstart ps)) i = Some r -> r = CFinal.
+Theorem removal_racy2_witness : forall p q v,
+    removal_racy2 p q = true ->
+    exists sched, cfailed (crun sched (Some v) (cstart [p; foreign_view q])) 0 = true.
 Proof.
-  intros ps sched s i r H Hs Hr. unfold cache_classify in H.
-  destruct (forallb stores_final ps) eqn:Hall.
-  - eapply cache_final_safe; eassumption.
-  - destruct (existsb _ ps); discriminate.
+  intros p q v H. unfold removal_racy2 in H.
+  destruct (find_checkread [] p) as [[loc rest]|] eqn:Hp; [|discriminate].
+  destruct (find_clear [] (foreign_view q)) as [[pre post]|] eqn:Hq; [|discriminate].
+  apply find_checkread_spec in Hp; [|reflexivity]. destruct Hp as [Hp Hloc]. cbn [rev app] in Hp. subst p.
+  apply find_clear_foreign_spec in Hq; [|reflexivity]. destruct Hq as [Hq Hpre]. cbn [rev app] in Hq. rewrite Hq.
+  exists (removal_sched loc pre). apply cache_removal_witness; assumption.
 Qed.
 
+Theorem cache_classified_safe : forall ps sched s i,
+    cache_classify ps = CacheSafe -> slot_ok s ->
+    cfailed (crun sched s (cstart ps)) i = false /\
+    forall r, cresult (crun sched s (cstart ps)) i = Some r -> r = CFinal.
+Proof.
+  intros ps sched s i H Hs. unfold cache_classify in H.
+  destruct (protocols_safe ps) eqn:Hall.
+  - apply cache_protocols_safe; assumption.
+  - destruct (_ || _); discriminate.
+Qed.
+
+(* racy: a placeholder that a reader can return, or a check-then-read next to a removal site that makes
+   the reader raise *)
 Theorem cache_classified_racy : forall ps,
     cache_classify ps = CacheRacy ->
-    exists p q, In p ps /\ In q ps /\
-                exists sched tag, cresult (crun sched None (cstart [p; q])) 1 = Some (COther tag).
+    (exists p q, In p ps /\ In q ps /\ cache_classify2 p q = CacheRacy) \/
+    (exists p q, In p ps /\ In q ps /\
+                 forall v, exists sched, cfailed (crun sched (Some v) (cstart [p; foreign_view q])) 0 = true).
 Proof.
   intros ps H. unfold cache_classify in H.
-  destruct (forallb stores_final ps); [discriminate|].
-  destruct (existsb _ ps) eqn:Hex; [|discriminate].
-  apply existsb_exists in Hex as [p [Hp Hex]].
-  apply existsb_exists in Hex as [q [Hq Hpq]].
-  exists p, q. split; [exact Hp|]. split; [exact Hq|].
-  apply cache_classify2_racy. destruct (cache_classify2 p q); try discriminate. reflexivity.
+  destruct (protocols_safe ps); [discriminate|].
+  destruct (existsb (fun p => existsb (fun q => match cache_classify2 p q with CacheRacy => true | _ => false end) ps) ps) eqn:Hex.
+  - left. apply existsb_exists in Hex as [p [Hp Hex]]. apply existsb_exists in Hex as [q [Hq Hpq]].
+    exists p, q. split; [exact Hp|split; [exact Hq|]]. destruct (cache_classify2 p q); try discriminate. reflexivity.
+  - cbn [orb] in H. destruct (existsb (fun p => existsb (removal_racy2 p) ps) ps) eqn:Hex2; [|discriminate].
+    right. apply existsb_exists in Hex2 as [p [Hp Hex2]]. apply existsb_exists in Hex2 as [q [Hq Hpq]].
+    exists p, q. split; [exact Hp|split; [exact Hq|]]. intro v. apply removal_racy2_witness. exact Hpq.
 Qed.
 
-(* safe and racy exclude each other by construction of the classifier; a safe entry has no witness *)
 Theorem cache_safe_excludes_witness : forall ps sched i tag,
     cache_classify ps = CacheSafe ->
     cresult (crun sched None (cstart ps)) i = Some (COther tag) -> False.
 Proof.
   intros ps sched i tag H Hr.
-  assert (COther tag = CFinal) as E by (eapply cache_classified_safe; [exact H | left; reflexivity | exact Hr]).
-  discriminate.
+  destruct (cache_classified_safe ps sched None i H (or_introl eq_refl)) as [_ Hres].
+  specialize (Hres _ Hr). discriminate.
 Qed.
 
 (* ------------------------------------------------------------------ progress: threads do return *)
 
-Definition remaining (t : tstate) : nat := match t with Running r => S (length r) | Done _ => 0 end.
+Definition remaining (t : tstate) : nat := match t with Running r => S (length r) | _ => 0 end.
 
 Lemma cstep_remaining : forall s t, remaining (snd (cstep s t)) < remaining t \/ remaining t = 0.
 Proof.
-  intros s t. destruct t as [r|v]; [|right; reflexivity]. left.
+  intros s t. destruct t as [r|v|]; [|right; reflexivity|right; reflexivity]. left.
   destruct r as [|a r]; [cbn; lia|].
-  destruct a as [ | v | | ]; cbn [cstep]; try (cbn; lia).
-  destruct s; cbn; lia.
+  destruct a as [ | v | | | | ]; cbn [cstep]; try (cbn; lia); destruct s; cbn; try lia.
+  destruct r as [|b r']; cbn; try lia. destruct b; cbn; lia.
 Qed.
 
 Lemma nth_error_set_nth_same : forall A (l : list A) i x y,
@@ -284,46 +588,43 @@ Proof.
   induction l as [|z l IH]; intros i j x H; destruct i, j; cbn; auto; try congruence.
 Qed.
 
+Lemma cstep_finished : forall s t, remaining t = 0 -> cstep s t = (s, t).
+Proof. intros s [r|v|] H; [cbn in H; discriminate|reflexivity|reflexivity]. Qed.
+
 (* every step of thread i shortens what it has left; steps of other threads do not touch it *)
 Lemma crun_progress : forall sched s ts i t,
     nth_error ts i = Some t ->
     exists t', nth_error (snd (crun sched s ts)) i = Some t' /\
-               remaining t' + count_occ Nat.eq_dec sched i <= remaining t \/
-               (nth_error (snd (crun sched s ts)) i = Some t' /\ remaining t' = 0).
+               (remaining t' + count_occ Nat.eq_dec sched i <= remaining t \/ remaining t' = 0).
 Proof.
   induction sched as [|j sched IH]; intros s ts i t Hi.
-  - exists t. left. split; [exact Hi|cbn; lia].
+  - exists t. split; [exact Hi|left; cbn; lia].
   - cbn [crun]. destruct (nth_error ts j) as [tj|] eqn:Hj.
     + destruct (cstep s tj) as [s' tj'] eqn:Hstep.
       destruct (Nat.eq_dec j i) as [->|Hne].
       * rewrite Hi in Hj. injection Hj as <-.
         assert (Hi' : nth_error (set_nth ts i tj') i = Some tj') by (eapply nth_error_set_nth_same; exact Hi).
-        destruct (IH s' (set_nth ts i tj') i tj' Hi') as [t' [[Hn Hle]|[Hn Hz]]].
-        -- exists t'. pose proof (cstep_remaining s t) as Hrem. rewrite Hstep in Hrem. cbn [snd] in Hrem.
+        destruct (IH s' (set_nth ts i tj') i tj' Hi') as [t' [Hn [Hle|Hz]]]; exists t'; (split; [exact Hn|]).
+        -- pose proof (cstep_remaining s t) as Hrem. rewrite Hstep in Hrem. cbn [snd] in Hrem.
            cbn [count_occ]. destruct (Nat.eq_dec i i) as [_|C]; [|congruence].
-           destruct Hrem as [Hlt|Hz].
-           ++ left. split; [exact Hn|lia].
-           ++ right. split; [exact Hn|]. destruct t as [r|v]; [cbn in Hz; discriminate|].
-              cbn [cstep] in Hstep. injection Hstep as <- <-. cbn in Hle. lia.
-        -- exists t'. right. split; assumption.
+           destruct Hrem as [Hlt|Hz]; [left; lia|].
+           right. rewrite (cstep_finished s t Hz) in Hstep. injection Hstep as <- <-. lia.
+        -- right. exact Hz.
       * assert (Hi' : nth_error (set_nth ts j tj') i = Some t) by (rewrite nth_error_set_nth_other; assumption).
-        destruct (IH s' (set_nth ts j tj') i t Hi') as [t' [[Hn Hle]|[Hn Hz]]].
-        -- exists t'. left. split; [exact Hn|]. cbn [count_occ]. destruct (Nat.eq_dec j i); [congruence|lia].
-        -- exists t'. right. split; assumption.
+        destruct (IH s' (set_nth ts j tj') i t Hi') as [t' [Hn [Hle|Hz]]]; exists t'; (split; [exact Hn|]).
+        -- left. cbn [count_occ]. destruct (Nat.eq_dec j i); [congruence|lia].
+        -- right. exact Hz.
     + destruct (Nat.eq_dec j i) as [->|Hne]; [rewrite Hi in Hj; discriminate|].
-      destruct (IH s ts i t Hi) as [t' [[Hn Hle]|[Hn Hz]]].
-      * exists t'. left. split; [exact Hn|]. cbn [count_occ]. destruct (Nat.eq_dec j i); [congruence|lia].
-      * exists t'. right. split; assumption.
+      destruct (IH s ts i t Hi) as [t' [Hn [Hle|Hz]]]; exists t'; (split; [exact Hn|]).
+      * left. cbn [count_occ]. destruct (Nat.eq_dec j i); [congruence|lia].
+      * right. exact Hz.
 Qed.
-
-Lemma remaining_zero_done : forall t, remaining t = 0 -> exists r, t = Done r.
-Proof. intros [r|v] H; [cbn in H; discriminate|eauto]. Qed.
 
 (* total correctness: whatever the other threads do and however the steps are interleaved, a thread that
    is scheduled often enough (its protocol's length + 1 times) has returned, and it has returned the
    completely computed value *)
 Theorem cache_final_complete : forall ps sched s i p,
-    forallb stores_final ps = true -> slot_ok s ->
+    protocols_safe ps = true -> slot_ok s ->
     nth_error ps i = Some p ->
     S (length p) <= count_occ Nat.eq_dec sched i ->
     cresult (crun sched s (cstart ps)) i = Some CFinal.
@@ -331,14 +632,12 @@ Proof.
   intros ps sched s i p Hps Hs Hp Hcount.
   assert (Hi : nth_error (cstart ps) i = Some (Running p)).
   { unfold cstart. rewrite nth_error_map, Hp. reflexivity. }
-  destruct (crun_progress sched s (cstart ps) i (Running p) Hi) as [t' [[Hn Hle]|[Hn Hz]]].
-  - cbn [remaining] in Hle. assert (Hz : remaining t' = 0) by lia.
-    destruct (remaining_zero_done t' Hz) as [r ->].
-    assert (Hr : cresult (crun sched s (cstart ps)) i = Some r) by (unfold cresult; rewrite Hn; reflexivity).
-    rewrite Hr. f_equal. eapply cache_final_safe; eassumption.
-  - destruct (remaining_zero_done t' Hz) as [r ->].
-    assert (Hr : cresult (crun sched s (cstart ps)) i = Some r) by (unfold cresult; rewrite Hn; reflexivity).
-    rewrite Hr. f_equal. eapply cache_final_safe; eassumption.
+  destruct (cache_protocols_safe ps sched s i Hps Hs) as [Hnf Hres].
+  destruct (crun_progress sched s (cstart ps) i (Running p) Hi) as [t' [Hn Hz]].
+  assert (Hz0 : remaining t' = 0) by (destruct Hz as [Hle|Hz]; [cbn [remaining] in Hle; lia|exact Hz]).
+  unfold cfailed, cresult in *. rewrite Hn in *.
+  destruct t' as [r|v|]; [cbn in Hz0; discriminate| |discriminate].
+  f_equal. apply Hres. reflexivity.
 Qed.
 
 (* ------------------------------------------------------------------ many keys: slots are independent *)
@@ -404,17 +703,19 @@ Qed.
 (* hence the single-slot theorem lifts to the whole cache: threads working on any keys, any schedule *)
 Theorem cache_keyed_final_safe : forall kps sched m i r,
     forallb (fun kp : nat * cprog => stores_final (snd kp)) kps = true ->
+    forallb (fun kp : nat * cprog => no_read (snd kp)) kps = true ->
     (forall k, slot_ok (m k)) ->
     kresult (krun sched m (kstart kps)) i = Some r -> r = CFinal.
 Proof.
-  intros kps sched m i r Hps Hm Hr. unfold kresult in Hr.
+  intros kps sched m i r Hps Hnr Hm Hr. unfold kresult in Hr.
   destruct (nth_error (snd (krun sched m (kstart kps))) i) as [[k t]|] eqn:Hn; [|discriminate].
-  destruct t as [rest|v]; [discriminate|]. injection Hr as <-.
+  destruct t as [rest|v|]; try discriminate. injection Hr as <-.
   pose proof (krun_project sched m (kstart kps) k) as Hproj.
   assert (Hok : Forall tstate_ok (kproj k (kstart kps))).
-  { unfold kproj, kstart. rewrite map_map. clear - Hps. induction kps as [|kp kps IH]; cbn; constructor.
-    - cbn in Hps. apply andb_true_iff in Hps as [H1 _]. cbn [fst snd]. destruct (Nat.eqb (fst kp) k); cbn; [exact H1|reflexivity].
-    - apply IH. cbn in Hps. apply andb_true_iff in Hps. tauto. }
+  { unfold kproj, kstart. rewrite map_map. clear - Hps Hnr. induction kps as [|kp kps IH]; cbn; constructor.
+    - cbn in Hps, Hnr. apply andb_true_iff in Hps as [H1 _]. apply andb_true_iff in Hnr as [H2 _]. cbn [fst snd].
+      destruct (Nat.eqb (fst kp) k); cbn; [split; assumption|reflexivity].
+    - apply IH; [cbn in Hps; apply andb_true_iff in Hps; tauto|cbn in Hnr; apply andb_true_iff in Hnr; tauto]. }
   destruct (crun_ok sched (m k) (kproj k (kstart kps)) (Hm k) Hok) as [_ Hall].
   rewrite Hproj in Hall. cbn [snd] in Hall.
   assert (Hin : nth_error (kproj k (snd (krun sched m (kstart kps)))) i = Some (Done v)).
